@@ -278,8 +278,10 @@ def high_low(cx):
             forms.add('all')
         elif nf == sym.norm('%s[:, channels]' % data):
             forms.add('sel')
-        elif nf in (sym.norm('%s.reshape((-1, 1))' % X), sym.norm('%s.reshape(-1, 1)' % X),
-                    sym.norm('%s[:, np.newaxis]' % X), sym.norm('%s[:, None]' % X)):
+        elif nf in (sym.norm('%s.reshape((-1, 1))' % X), sym.norm('%s.reshape(-1, 1)' % X)):
+            # reshape keeps the sample type (and so range()); indexing with None / np.newaxis does not:
+            # FCSData.__getitem__ returns a plain array for keys containing None (C04), which would
+            # silently turn the default thresholds into +/-inf
             forms.add('col')
         else:
             okx = False
